@@ -361,16 +361,10 @@ theorem startSelf_wf {R : Nat} {E : Engine} (hE : EngineWF R E) (d : Defects) (c
   simp only
   subst hR
   -- the override detection
-  have hA : ∀ b : Bool, WFrec cx.runid (if b then (if (!sf0.isOverride) = true then
-        setOverride (ev w (.warnOverride t)) t sf0 cx.runid else sf0) else sf0) ∧
-      WFR cx.runid (if b then setRec (ev w (.warnOverride t)) t (if (!sf0.isOverride) = true then
-        setOverride (ev w (.warnOverride t)) t sf0 cx.runid else sf0) else w) := by
+  have hA : ∀ b : Bool, WFrec cx.runid (if b then (setOverride (ev w (.warnOverride t)) t sf0 cx.runid) else sf0) ∧
+      WFR cx.runid (if b then setRec (ev w (.warnOverride t)) t (setOverride (ev w (.warnOverride t)) t sf0 cx.runid) else w) := by
     intro b
-    have h1 : WFrec cx.runid (if (!sf0.isOverride) = true then
-        setOverride (ev w (.warnOverride t)) t sf0 cx.runid else sf0) := by
-      split
-      · exact hsf.setOverride _ _
-      · exact hsf
+    have h1 : WFrec cx.runid (setOverride (ev w (.warnOverride t)) t sf0 cx.runid) := hsf.setOverride _ _
     cases b
     · exact ⟨hsf, h⟩
     · exact ⟨h1, WFR.setRec (h.of_recs rfl) t h1⟩
@@ -378,20 +372,15 @@ theorem startSelf_wf {R : Nat} {E : Engine} (hE : EngineWF R E) (d : Defects) (c
       (sf0.isOverride || detectOverride (sf0.stamp.getD .missing) (readStamp w t))) = b
   have hA' := hA b
   have e : (if b = true then
-        (if (!sf0.isOverride) = true then setOverride (ev w (.warnOverride t)) t sf0 cx.runid else sf0,
-          setRec (ev w (.warnOverride t)) t (if (!sf0.isOverride) = true then
-            setOverride (ev w (.warnOverride t)) t sf0 cx.runid else sf0))
+        (setOverride (ev w (.warnOverride t)) t sf0 cx.runid,
+          setRec (ev w (.warnOverride t)) t (setOverride (ev w (.warnOverride t)) t sf0 cx.runid))
       else (sf0, w)) =
-      ((if b then (if (!sf0.isOverride) = true then
-        setOverride (ev w (.warnOverride t)) t sf0 cx.runid else sf0) else sf0),
-       (if b then setRec (ev w (.warnOverride t)) t (if (!sf0.isOverride) = true then
-        setOverride (ev w (.warnOverride t)) t sf0 cx.runid else sf0) else w)) := by
+      ((if b then (setOverride (ev w (.warnOverride t)) t sf0 cx.runid) else sf0),
+       (if b then setRec (ev w (.warnOverride t)) t (setOverride (ev w (.warnOverride t)) t sf0 cx.runid) else w)) := by
     cases b <;> rfl
   rw [e]
-  generalize (if b then (if (!sf0.isOverride) = true then
-        setOverride (ev w (.warnOverride t)) t sf0 cx.runid else sf0) else sf0) = sf at hA'
-  generalize (if b then setRec (ev w (.warnOverride t)) t (if (!sf0.isOverride) = true then
-        setOverride (ev w (.warnOverride t)) t sf0 cx.runid else sf0) else w) = w1 at hA'
+  generalize (if b then (setOverride (ev w (.warnOverride t)) t sf0 cx.runid) else sf0) = sf at hA'
+  generalize (if b then setRec (ev w (.warnOverride t)) t (setOverride (ev w (.warnOverride t)) t sf0 cx.runid) else w) = w1 at hA'
   obtain ⟨hsf1, hw1⟩ := hA'
   dsimp only
   split
